@@ -1,5 +1,6 @@
 import UncModel.Unicode
 import UncModel.LineEnd
+import UncModel.EatSE
 namespace Unc
 
 def encName : Enc → String
@@ -41,6 +42,13 @@ def handleUnicode : List String → Option String
     match parseHexList hex with
     | some l => let r := wsScan l 0 {}; some s!"{r.1} {r.2.1.lf},{r.2.1.crlf},{r.2.1.cr} {hexList r.2.2}"
     | none => some "bad-op"
+  | ["eatse.edge", frag, opt, min, edge] =>
+    -- edge: `-` = the edge chunk is not a newline, else its nl_count
+    match opt.toNat? >>= IARF.ofCode, min.toNat? with
+    | some o, some m =>
+      let e : Option Nat := if edge = "-" then none else edge.toNat?
+      some (toString (edgeBreaks (fileEdge (parseBool frag) o m e)))
+    | _, _ => some "bad-op"
   | _ => none
 
 end Unc
